@@ -481,6 +481,10 @@ func (vc *VC) boundsCheck(idx string, signed bool, ln string, what string) {
 }
 
 func (vc *VC) execInstr(fr *Frame, b *ssa.BasicBlock, ins ssa.Instruction) {
+	if ins.Pos().IsValid() {
+		p := vc.eng.fset.Position(ins.Pos())
+		vc.curPos = fmt.Sprintf("%s:%d", shortTK(p.Filename), p.Line)
+	}
 	defer func() {
 		if r := recover(); r != nil {
 			if e, ok := r.(vcError); ok && !strings.Contains(e.msg, " at ") {
@@ -1232,6 +1236,12 @@ func (vc *VC) checkAnchors(fr *Frame, b *ssa.BasicBlock, call *ssa.Call) {
 			args = append(args, vc.valueAt(fr, b, call, n, nil))
 		}
 		g := vc.evalClause(a.C.GoName, fr.fi.C.Pkg, args, vc.st, vc.entry)
+		if a.C.Kind == "assume" {
+			// a stated hypothesis (listed in the evidence), not an obligation
+			vc.assume(g)
+			vc.noteAssumption("hypothesis at call " + a.Callee + " in " + fr.fn.Name() + ": " + a.C.Expr)
+			continue
+		}
 		tag := ""
 		if len(a.C.Tags) > 0 {
 			tag = "[" + strings.Join(a.C.Tags, ",") + "]"
